@@ -17,7 +17,7 @@ from ..common import Ctx, pmap, jhash
 from .. import matlib
 
 FRAMES = {}
-DATA_VARS = {"a": "a", "b": "b", "A": "A", "B": "B", "C(A, contr.sum)": "A", "C(B, contr.helmert)": "B", "C(B, contr.SAS)": "B"}
+DATA_VARS = {"a": "a", "b": "b", "A": "A", "B": "B", "C(A, contr.sum)": "A", "C(B, contr.helmert)": "B", "C(B, contr.SAS)": "B", "n 1": "n 1", "I(`n 1`)": "n 1"}
 
 
 def replay_case(case):
@@ -70,7 +70,8 @@ def replay_case(case):
         chk(f"get_slice(Term {printed})", tr(lambda: [spec.get_slice(t).start, spec.get_slice(t).stop]), sl)
         if printed not in names or [names.index(printed)] == rng:
             chk(f"get_slice('{printed}')", tr(lambda: [spec.get_slice(printed).start, spec.get_slice(printed).stop]), sl)
-        chk(f"get_term_indices(['{printed}'])", tr(lambda: list(spec.get_term_indices([printed]))), rng)
+        written = ":".join(matlib.quote(f.expr) for f in t.factors)        # a formula specification, not a printed form
+        chk(f"get_term_indices(['{written}'])", tr(lambda: list(spec.get_term_indices([written]))), rng)
     for i, n in enumerate(names):
         if names.count(n) == 1 and n not in [str(t) for t in terms]:
             chk(f"get_slice(column '{n}')", tr(lambda: [spec.get_slice(n).start, spec.get_slice(n).stop]), [i, i + 1])
@@ -82,7 +83,7 @@ def replay_case(case):
     if isinstance(vi, str):
         chk("variable_indices", vi, "a mapping")
     else:
-        for var in ("a", "b", "A", "B"):
+        for var in ("a", "b", "A", "B", "n 1"):
             exp = sorted({i for t, rng in zip(case["terms"], ranges) for i in rng if any(DATA_VARS.get(f) == var for f in t)})
             used = any(DATA_VARS.get(f) == var for t in case["terms"] for f in t)
             chk(f"variable_indices['{var}']", vi.get(var) if used else vi.get(var, []), exp if used else vi.get(var, []))
@@ -94,7 +95,7 @@ def replay_case(case):
     if len(terms) >= 2:
         picks += [[len(terms) - 1, 0], list(range(len(terms)))]
     for pick in picks[:5]:
-        sub_terms = [str(terms[i]) for i in pick]
+        sub_terms = [":".join(matlib.quote(f.expr) for f in terms[i].factors) for i in pick]
         cols = [j for i in pick for j in ranges[i]]
 
         def build():
